@@ -65,6 +65,23 @@ var linkRows = []linkRow{
 	{name: "missing-module-that-exists-in-another-case", reject: true, mods: map[string]string{
 		"main":   "import { tell } from LIGHTS;\nfn main() { tell(); }\n",
 		"lights": "pub fn tell() { println(\"lower\"); }\nfn main() {}\n"}},
+	// every module's globals are initialised before main runs, whatever the order and multiplicity of the import
+	// statements that lead to it
+	{name: "shared-module-imported-before-a-new-one", want: "util 1\nb 12\nd 105\n", mods: map[string]string{
+		"main": "import { u } from util;\nimport { fb } from b;\nfn main() { println(\"util\", u()); fb(); }\n",
+		"util": "let n = 0;\npub fn u() -> int { n += 1; n }\nfn main() {}\n",
+		"b":    "import { u } from util;\nimport { fd } from d;\nlet base = 10;\npub fn fb() { println(\"b\", base + u()); println(\"d\", fd()); }\nfn main() {}\n",
+		"d":    "let counter = 100;\nlet step = 5;\npub fn fd() -> int { counter += step; counter }\nfn main() {}\n"}},
+	{name: "two-statements-for-one-module-then-a-new-module", want: "3 41\n", mods: map[string]string{
+		"main": "import { type Pair } from b;\nimport { make } from b;\nimport { get_c } from c;\nfn main() { let p: Pair = make(); println(p.l + p.r, get_c()); }\n",
+		"b":    "pub type Pair = { l: int, r: int };\nlet one = 1;\npub fn make() -> Pair { new { l: one, r: one + 1 } }\nfn main() {}\n",
+		"c":    "let counter = 40;\npub fn get_c() -> int { counter += 1; counter }\nfn main() {}\n"}},
+	{name: "new-module-behind-three-known-ones", want: "1 2 3 9\n", mods: map[string]string{
+		"main": "import { fa } from a;\nimport { fb } from b;\nimport { fc } from c;\nfn main() { println(fa(), fb(), fc(), fz()); }\nimport { fz } from z;\n",
+		"a":    "let v = 1;\npub fn fa() -> int { v }\nfn main() {}\n",
+		"b":    "import { fa } from a;\nlet v = 2;\npub fn fb() -> int { v + fa() - 1 }\nfn main() {}\n",
+		"c":    "import { fa } from a;\nimport { fb } from b;\nimport { fz } from z;\nlet v = 3;\npub fn fc() -> int { v + fa() + fb() + fz() - 12 }\nfn main() {}\n",
+		"z":    "let v = 9;\npub fn fz() -> int { v }\nfn main() {}\n"}},
 	{name: "closure-callback-calls-back-into-the-library", want: "100 1\n", mods: map[string]string{
 		"main": "import { run, get, bump } from b;\nlet counter = 100;\nfn main() { let cb = fn() { bump(); }; run(cb); println(counter, get()); }\n",
 		"b":    "let counter = 0;\npub fn bump() { counter += 1; }\npub fn run(cb: fn() -> null) { cb(); }\npub fn get() -> int { counter }\nfn main() {}\n"}},
